@@ -868,6 +868,8 @@ class Interp:
 
     def binop(self, op, a, b, node=None):
         from . import models
+        if isinstance(op, (ast.BitOr, ast.BitAnd)) and (isinstance(a, bool) or is_symbool(a)) and (isinstance(b, bool) or is_symbool(b)):
+            return _or(a, b) if isinstance(op, ast.BitOr) else _and(a, b)
         if isinstance(a, Obj) and a.kind == "rec" and isinstance(op, ast.Sub) and resolve_method(a.cls, "__sub__"):
             return self.call_repo(a.cls, "__sub__", a, [b])
         if isinstance(a, In) and isinstance(b, In):
